@@ -153,7 +153,8 @@ pub fn value_to_cell(v: &Value) -> Cell {
     match v {
         Value::Int(i) => Cell::I(*i),
         Value::Float(f) => Cell::F(f.0.to_bits()),
-        Value::Str(s) => Cell::S(s.clone()),
+        // (the database can hand out strings that are not UTF-8, see known findings)
+        Value::Str(s) => Cell::S(String::from_utf8_lossy(s.as_bytes()).into_owned()),
         Value::Null => Cell::N,
     }
 }
@@ -162,7 +163,7 @@ fn column_to_cells(c: &BasicTypeColumn) -> Vec<Cell> {
     match c {
         BasicTypeColumn::Int(v) => v.iter().map(|i| Cell::I(*i)).collect(),
         BasicTypeColumn::Float(v) => v.iter().map(|f| Cell::F(f.to_bits())).collect(),
-        BasicTypeColumn::String(v) => v.iter().map(|s| Cell::S(s.clone())).collect(),
+        BasicTypeColumn::String(v) => v.iter().map(|s| Cell::S(String::from_utf8_lossy(s.as_bytes()).into_owned())).collect(),
         BasicTypeColumn::Null(n) => vec![Cell::N; *n],
         BasicTypeColumn::Mixed(v) => v.iter().map(value_to_cell).collect(),
     }
@@ -192,13 +193,14 @@ pub fn convert_output(o: &QueryOutput) -> QOut {
 }
 
 pub fn panic_message(p: &Box<dyn std::any::Any + Send>) -> String {
-    if let Some(s) = p.downcast_ref::<&str>() {
+    let s = if let Some(s) = p.downcast_ref::<&str>() {
         s.to_string()
     } else if let Some(s) = p.downcast_ref::<String>() {
         s.clone()
     } else {
         "<panic>".into()
-    }
+    };
+    String::from_utf8_lossy(s.as_bytes()).into_owned()
 }
 
 /// Run a query on the calling simulated thread; panics in the caller become `QErr::Panic`.
@@ -207,7 +209,7 @@ pub fn run_query(db: &LocustDB, sql: &str) -> Result<QOut, QErr> {
     let r = catch(AssertUnwindSafe(|| rt::block_on(db.run_query(sql, false, true, vec![]))));
     let out = match r {
         Ok(Ok(o)) => Ok(convert_output(&o)),
-        Ok(Err(e)) => Err(QErr::Err(query_error_kind(&e).to_string(), rt::core::truncate(&format!("{e}"), 300))),
+        Ok(Err(e)) => Err(QErr::Err(query_error_kind(&e).to_string(), rt::core::truncate(&String::from_utf8_lossy(format!("{e}").as_bytes()), 300))),
         Err(p) => Err(QErr::Panic(rt::core::truncate(&panic_message(&p), 300))),
     };
     rt::core::log("q_return", || match &out {
@@ -235,6 +237,11 @@ pub fn register_name_words(words: impl IntoIterator<Item = String>) {
 pub fn stem(msg: &str) -> String {
     // message stem: digits, quoted parts and generated identifiers removed, first words kept
     let names = NAME_WORDS.lock().unwrap();
+    // messages that go on to quote table / column names are cut before them
+    let msg = match msg.find(", table") {
+        Some(i) => &msg[..i],
+        None => msg,
+    };
     let mut cleaned = String::new();
     let mut in_q = false;
     for ch in msg.chars() {
@@ -251,7 +258,7 @@ pub fn stem(msg: &str) -> String {
     let mut out: Vec<&str> = Vec::new();
     for w in cleaned.split_whitespace() {
         let bare = w.trim_matches(|c: char| !c.is_alphanumeric() && c != '_');
-        if bare.is_empty() || names.contains(bare) {
+        if bare.is_empty() || (bare.len() >= 2 && names.contains(bare)) {
             continue;
         }
         out.push(w);
@@ -315,7 +322,7 @@ impl Env {
         let (all, from): (Vec<rt::core::PanicRec>, usize) = rt::core::with_ctx(|c| (c.panics.clone(), self.panics_seen.min(c.panics.len())));
         self.panics_seen = all.len();
         for (i, p) in all.iter().enumerate().skip(from) {
-            if i > 0 && p.message.contains("PoisonError") {
+            if i > 0 && (p.message.contains("PoisonError") || p.message.contains("Canceled")) {
                 continue;
             }
             let class = format!("panic:{}:{}", file_of(&p.location), stem(&p.message));
@@ -355,7 +362,13 @@ impl Env {
                 Err(_) => panic!("harness bug: database handle still shared at close"),
             }
         }
-        rt::thread::wait_db_quiescent(self.group);
+        if !rt::thread::wait_db_quiescent(self.group) {
+            // threads of the closed instance are blocked for good; the process would simply go on
+            self.count("close_left_threads_blocked");
+            rt::core::log("note", || format!("instance left blocked threads behind: {:?}", rt::core::wait_reasons()));
+        }
+        // a later instance gets a fresh thread group
+        self.group = NEXT_GROUP.fetch_add(1, std::sync::atomic::Ordering::SeqCst);
         sched::progress();
         rt::core::log("op_return", || "close".into());
         self.count("close");
